@@ -160,20 +160,25 @@ func c04Run(j *rt.Job, seed uint64, r *rt.Rec) {
 	c := cfgFromJob(j)
 	idx := uint32(j.Int("idx"))
 	n := uint32(1) << uint(c.H)
-	k := c.newLib()
-	pkA := k.GetPK()
-	pk := pkA[:]
-	if idx > 0 {
-		k.SetIndex(idx)
-	}
+	// every valid triple in this monitor is made by the REFERENCE signer (full tree), so that the verdicts
+	// depend on the library's verifier only; one library-made signature is judged in addition
+	refKey := c.newRef()
+	pk := refKey.PK(c.desc())
 	msg := msgFor(c, idx, "c04")
 	if len(msg) == 0 {
 		msg = []byte("c04")
 	}
-	sig, err := k.Sign(msg)
-	if err != nil {
-		r.Inconclusive("could not produce the base signature")
-		return
+	sig := refKey.Sign(idx, msg)
+	if lk := c.newLib(); true {
+		if idx > 0 {
+			lk.SetIndex(idx)
+		}
+		lpk := lk.GetPK()
+		if lsig, err := lk.Sign(msg); err == nil {
+			if !x.judge("library-made-triple", msg, lsig, lpk[:], "ref", true) {
+				return
+			}
+		}
 	}
 	r.Observe("configs", fmt.Sprintf("h=%d/%s/idx=%d", c.H, hashNames[c.HF], idx))
 	if !x.judge("valid", msg, sig, pk, "accept", true) {
@@ -224,8 +229,7 @@ func c04Run(j *rt.Job, seed uint64, r *rt.Rec) {
 	}
 	// 3. message edits
 	short := []byte("abc")
-	ks := c.newLib()
-	ssig, _ := ks.Sign(short)
+	ssig := refKey.Sign(0, short)
 	for bit := 0; bit < len(short)*8; bit++ {
 		if !x.judge("msg-bitflip", flipBit(short, bit), ssig, pk, "reject", true) {
 			return
@@ -243,31 +247,23 @@ func c04Run(j *rt.Job, seed uint64, r *rt.Rec) {
 	}
 	// a long message (beyond 64 KiB): valid, and not valid with its last byte changed
 	if j.Bool("full") {
-		kl := c.newLib()
 		long := rt.NewRand(uint64(c.H), "c04long/"+c.Seed).Bytes(65537 + c.HF*40000)
-		lsig, _ := kl.Sign(long)
+		lsig := refKey.Sign(0, long)
 		if !x.judge("valid-long-message", long, lsig, pk, "accept", true) || !x.judge("long-message-last-byte", flipBit(long, len(long)*8-1), lsig, pk, "reject", true) {
 			return
 		}
 	}
 	// 4. substitutions
 	other := XCfg{H: c.H, HF: c.HF, Seed: rt.Hex(rng.Bytes(48))}
-	ko := other.newLib()
-	opk := ko.GetPK()
-	if idx > 0 {
-		ko.SetIndex(idx)
-	}
-	osig, _ := ko.Sign(msg)
-	if !x.judge("other-key-signature", msg, osig, pk, "reject", true) || !x.judge("other-key-pk", msg, sig, opk[:], "reject", true) {
+	ko := other.newRef()
+	opk := ko.PK(other.desc())
+	osig := ko.Sign(idx, msg)
+	if !x.judge("other-key-signature", msg, osig, pk, "reject", true) || !x.judge("other-key-pk", msg, sig, opk, "reject", true) {
 		return
 	}
 	// another index of the same key: as is, and with the index field rewritten to match
 	oi := (idx + 1) % n
-	k2 := c.newLib()
-	if oi > 0 {
-		k2.SetIndex(oi)
-	}
-	sig2, _ := k2.Sign(msg)
+	sig2 := refKey.Sign(oi, msg)
 	s := append([]byte(nil), sig2...)
 	copy(s[:4], sig[:4])
 	s3 := mutS()
@@ -360,10 +356,10 @@ func c04Run(j *rt.Job, seed uint64, r *rt.Rec) {
 			continue
 		}
 		c2 := XCfg{H: h2, HF: c.HF, Seed: c.Seed}
-		kh := c2.newLib()
-		hpk := kh.GetPK()
-		hsig, _ := kh.Sign(msg)
-		if !x.judge("other-height", msg, hsig, pk, "ref", true) || !x.judge("other-height", msg, sig, hpk[:], "ref", true) {
+		kh := c2.newRef()
+		hpk := kh.PK(c2.desc())
+		hsig := kh.Sign(0, msg)
+		if !x.judge("other-height", msg, hsig, pk, "ref", true) || !x.judge("other-height", msg, sig, hpk, "ref", true) {
 			return
 		}
 		// descriptor height rewritten to match the foreign signature's size
@@ -377,12 +373,12 @@ func c04Run(j *rt.Job, seed uint64, r *rt.Rec) {
 		}
 	}
 	c3 := XCfg{H: c.H, HF: (c.HF + 1) % 3, Seed: c.Seed}
-	kf := c3.newLib()
-	fpk := kf.GetPK()
-	fsig, _ := kf.Sign(msg)
+	kf := c3.newRef()
+	fpk := kf.PK(c3.desc())
+	fsig := kf.Sign(0, msg)
 	p3 := mutP()
 	p3[0] = p3[0]&0xF0 | byte(c3.HF)
-	if !x.judge("other-hash", msg, fsig, pk, "reject", true) || !x.judge("other-hash", msg, sig, fpk[:], "reject", true) || !x.judge("other-hash-desc-rewritten", msg, sig, p3, "reject", true) {
+	if !x.judge("other-hash", msg, fsig, pk, "reject", true) || !x.judge("other-hash", msg, sig, fpk, "reject", true) || !x.judge("other-hash-desc-rewritten", msg, sig, p3, "reject", true) {
 		return
 	}
 	// 5. hostile descriptors x roots a verifier that "computes nothing" would arrive at
